@@ -56,6 +56,10 @@ Theorem C06_prune_stream_special_lost_refuted :
   map e_gram (prune_spec ren_special f13_block) = [[0];[1];[3];[4]]%N.
 Proof. exact f13_special_lost. Qed.
 
+(* ParsePruning's accepted vectors satisfy the threshold hypothesis of the theorems above *)
+Theorem C06_parse_pruning_monotone : forall p n t o, parse_pruning p n = Some t -> o_prune o = t -> thr_mono o n /\ length t = n.
+Proof. exact parse_pruning_mono. Qed.
+
 (* the hypotheses are satisfiable, and the theorems are not vacuous: a model is built and the sum is a sum of 5 terms *)
 Theorem C06_example_built : exists m, kn_spec example_corpus 3 example_opts = Built m /\ thr_mono example_opts 3 /\
   fallback_ok (o_fallback example_opts) /\ length (filter (fun w => negb (w =? BOS)%N) (vocab m)) = 5%nat.
